@@ -277,6 +277,11 @@ pub trait Check: Sync {
     fn alloc_death_is_violation(&self) -> bool {
         self.panic_is_violation()
     }
+    /// percentage of cases that may be lost to panics / worker deaths of the code under test (which
+    /// other properties report) before the run is INCONCLUSIVE
+    fn max_aborted_pct(&self) -> u64 {
+        5
+    }
     /// CPU seconds one case may use before the worker is aborted (reported like an allocation death)
     fn case_cpu_limit_s(&self) -> u64 {
         300
@@ -316,8 +321,8 @@ pub fn install_panic_hook() {
         } else {
             "<non-string panic>".into()
         };
-        let site = in_repo_site();
-        let text = if site.is_empty() { format!("{loc}: {msg}") } else { format!("{loc}: {msg} @fn={site}") };
+        let (sfile, sfn) = in_repo_frame();
+        let text = if sfn.is_empty() { format!("{loc}: {msg}") } else { format!("{loc}: {msg} @fn={sfile}#{sfn}") };
         let quiet = QUIET_PANICS.with(|q| *q.borrow());
         if !quiet {
             eprintln!("[panic] {text}");
@@ -335,6 +340,11 @@ pub fn install_panic_hook() {
 /// Innermost function of the code under test (a frame whose source lies under /repo/rust/) on
 /// the current stack, as `Type::method` / `module::function` (generics, closures and hashes stripped).
 pub fn in_repo_site() -> String {
+    in_repo_frame().1
+}
+
+/// (source file basename, function) of the innermost frame of the code under test
+pub fn in_repo_frame() -> (String, String) {
     let bt = std::backtrace::Backtrace::force_capture().to_string();
     if std::env::var_os("AMV_DEBUG_BT").is_some() {
         eprintln!("{bt}");
@@ -351,12 +361,13 @@ pub fn in_repo_site() -> String {
                 let sym = sym.split_once(": ").map(|x| x.1).unwrap_or(sym);
                 let f = short_fn(sym);
                 if !f.is_empty() {
-                    return f;
+                    let file = path.split(':').next().unwrap_or(path).rsplit('/').next().unwrap_or("").to_string();
+                    return (file, f);
                 }
             }
         }
     }
-    String::new()
+    (String::new(), String::new())
 }
 
 pub fn short_fn(sym: &str) -> String {
@@ -421,6 +432,7 @@ pub fn panic_sig_fn(text: &str) -> String {
         None => (text, ""),
     };
     let base = panic_sig(body);
+    let site = site.rsplit('#').next().unwrap_or(site);
     if site.is_empty() {
         return base;
     }
@@ -429,6 +441,27 @@ pub fn panic_sig_fn(text: &str) -> String {
         parts[1] = format!("{}#{}", parts[1], site);
     }
     parts.join("|")
+}
+
+/// Region-level signature of a panic: `panic|<crate>|<file>` of the innermost frame of the code
+/// under test (no function, no message). Used where the unchanged tree has a known missing
+/// validation layer and every consequence of it would otherwise need its own entry.
+pub fn panic_sig_file(text: &str) -> String {
+    let (body, site) = match text.rfind(" @fn=") {
+        Some(i) => (&text[..i], &text[i + 5..]),
+        None => (text, ""),
+    };
+    let loc = body.split(": ").next().unwrap_or("");
+    let path = loc.rsplit_once(':').map(|x| x.0).unwrap_or(loc);
+    let (krate, file) = if let Some(rest) = path.strip_prefix("/repo/rust/") {
+        let krate = rest.split('/').next().unwrap_or("?");
+        (krate.to_string(), rest.rsplit('/').next().unwrap_or("?").to_string())
+    } else {
+        // the panic location is inside the standard library: use the calling frame's file
+        let file = site.split('#').next().unwrap_or("?");
+        ("repo".to_string(), file.to_string())
+    };
+    format!("panic|{krate}|{file}")
 }
 
 pub fn set_quiet_panics(q: bool) {
@@ -924,7 +957,7 @@ pub fn coordinator(check: &dyn Check, a: &RunArgs) -> i32 {
         }
     }
     let aborted = merged_counters.get("aborted_by_panic").copied().unwrap_or(0) + merged_counters.get("aborted_by_worker_death").copied().unwrap_or(0);
-    if evaluations > 0 && aborted * 20 > evaluations {
+    if evaluations > 0 && aborted * 100 > evaluations * check.max_aborted_pct() {
         inconclusive.push(format!(
             "{aborted} of {evaluations} cases were aborted by a panic of the code under test (reported by C37): {}",
             escaped.first().map(|e| e.to_string()).unwrap_or_default()
